@@ -36,7 +36,7 @@ func main() {
 			return
 		}
 
-		nA := c.Scale(18, 400)
+		nA := c.Scale(12, 400)
 		steps := c.Scale(5, 7)
 		all := e2e.EngRunHistories(c.Rng, base+"/a", nA, 8, func(i int) e2e.EngOpts {
 			return e2e.EngOpts{MaxPkgs: 2, MaxTargets: 6, Steps: steps, CleanRef: true, Subsets: i%3 == 1, Failures: i%4 == 3,
@@ -56,8 +56,20 @@ func main() {
 			c.Case(e2e.EngCaseTerm(h), histJSON(i, h, len(h)-1), e2e.EngKey(h), changed >= 2)
 		}
 
+		// fixed witnesses of the directory-hash defect
+		for wi, w := range e2e.EngWitnesses() {
+			dir := fmt.Sprintf("%s/w%d", base, wi)
+			os.MkdirAll(dir, 0o755)
+			h := e2e.EngRunSpecs(dir, w.Specs, w.Order, e2e.EngOpts{CleanRef: true}, nil)
+			for k := range h {
+				c.Hist("edit", "witness-"+w.Name)
+				oracle(c, 1000+wi, h, k)
+			}
+			c.Case(e2e.EngCaseTerm(h), histJSON(1000+wi, h, len(h)-1), e2e.EngKey(h), true)
+		}
+
 		// Part B: the lead's first harness, full generator (output_dirs included), oracle only
-		nB := c.Scale(4, 100)
+		nB := c.Scale(3, 100)
 		allB := e2e.RunHistories(c.Rng, base+"/b", nB, 6, e2e.HistOpts{Gen: e2e.GenOpts{MaxPkgs: 3, MaxTargets: 7, DirOutputs: true}, Steps: steps, CleanRef: true, RmPlzOut: true, Revert: true})
 		for i, hist := range allB {
 			for _, st := range hist {
